@@ -8,6 +8,8 @@
 //	hub       (a) the real msghub.Hub with harness listeners, 1-4 producer goroutines
 //	close     (b) the real msgListenerV1/V2 (rest.VerifNewListenerV1/V2): enumerated close protocol
 //	slow      (b) a real listener whose consumer stops reading
+//	backlog   (b) a real listener whose consumer stopped reading overflows while the hub's own operation
+//	          queue is full (the hub held in a gate listener, 100+ operations and waiting producers behind it)
 //	healthy   (b) real listeners that are consumed concurrently by a harness "socket writer"
 //	hist0     history length 0 (monitor disabled): no panic, no block
 //	e2e       real store -> StoreManager -> extension host -> hub -> real socket listeners; deliveries
@@ -49,7 +51,7 @@ func init() {
 			"once in hub order until removed/failed. (close) the real v1/v2 socket listeners with the harness as socket reader/writer: " +
 			"version x mailbox filter x events buffered at close {0,1,2,99,100,100+N} x closer {reader, writer, reader twice, reader then writer, " +
 			"both concurrently, reader while writer consumes} x events {none, queued between Close's shutdown and its RemoveListener, right after, " +
-			"unsynced before}; (slow) consumer stops with more pending than the queue holds; (healthy) concurrently consumed listeners must deliver " +
+			"unsynced before}; (slow) consumer stops with more pending than the queue holds; (backlog) the same overflow at the first events relayed after a gate listener lets go of the hub with 100+M queued operations and K waiting producers behind it, then later joins are served; (healthy) concurrently consumed listeners must deliver " +
 			"history then every matching event once in order; in all of them 2-3 well-behaved harness listeners must see EVERY event once in order, " +
 			"and after the faulty listener 250 further events + Hub.Sync must return. (shutdown) operations after/during hub context cancellation " +
 			"return and do not panic. A case is non-trivial when at least one listener sequence was compared against a non-empty expectation; " +
@@ -63,6 +65,7 @@ func init() {
 			"a storage fault is planted before a Deliver call and repaired right after it, and the listings that define what the call owes are taken with the fault repaired; the index-write fault is not planted on a mailbox at its cap (what an eviction whose index update fails owes is not judged)",
 			"a listener whose consumer has not read anything yet when the hub has just replayed the retained history to it is not 'slow': the replay is one hub operation and the socket writer goroutine may not have been scheduled; live events are issued in bursts of at most 40 (the close stream already relies on 100 beyond the history)",
 			"bounded progress: Hub.Sync after 250 further events must return within 20 s (x4 on the parent's confirmation rerun)",
+			"backlog stream: the order of events issued by several producers that wait for a slot in the hub's queue is taken from the witness listener (it must hold exactly the issued events once each, the burst goroutine's in its own order); that the producers are parked when the gate opens is read from a goroutine dump and only counted",
 		},
 		MinObs: func(tier string) map[string]int64 {
 			m := map[string]int64{
@@ -112,9 +115,20 @@ func init() {
 				"e2ebig_histories":                                  6,
 				"e2ebig_late_joiners_replayed_over_500":             4,
 				"shutdown_cases":                                    192,
-				"shutdown_ops_after_cancel":                         30000,
-				"evaluations":                                       20000,
-				"distinct_nontrivial":                               4000,
+				// added after seeded change C15-11
+				"backlog_cases":                      24,
+				"backlog_backlog_confirmed":          20,
+				"backlog_ops_queued":                 2400,
+				"backlog_producers_parked":           72,
+				"backlog_overflow_while_queue_full":  12,
+				"backlog_overflow_at_first_relay":    8,
+				"backlog_listener_dropped":           20,
+				"backlog_sync_after_release_ok":      24,
+				"backlog_late_join_events_delivered": 300,
+				"backlog_harness_sequences":          96,
+				"shutdown_ops_after_cancel":          30000,
+				"evaluations":                        20000,
+				"distinct_nontrivial":                4000,
 			}
 			if tier == "thorough" {
 				m["ws_cases"] = 240
@@ -123,6 +137,7 @@ func init() {
 				m["ws_clients_replayed_over_500"] = 30
 				m["close_cases"] = 2880
 				m["slow_cases"] = 240
+				m["backlog_cases"] = 160
 			}
 			return m
 		},
@@ -144,6 +159,9 @@ func run(c *fw.Ctx) {
 	}
 	if want("slow") {
 		c.Cases("slow", slowCount(c), func(i int, r *fw.Rand) { slowCase(c, i, r) })
+	}
+	if want("backlog") {
+		c.Cases("backlog", backlogCount(c), func(i int, r *fw.Rand) { backlogCase(c, i, r) })
 	}
 	if want("healthy") {
 		c.Cases("healthy", c.N(1200, 12000), func(i int, r *fw.Rand) { healthyCase(c, i, r) })
